@@ -94,6 +94,7 @@ class Ctx:
         self.notes: set[str] = set()
         self.known = self.opts.get("known", [])  # list of known-finding records for this harness
         self.float_sites: set = set()
+        self.defs: dict[str, Any] = {}
         if mode == "sym":
             self.solver = z3.Solver()
             self.solver.set("timeout", int(self.opts.get("query_timeout_ms", 10000)))
@@ -102,9 +103,25 @@ class Ctx:
             self.pc_len = 0
 
     # ------------------------------------------------------------------ solver plumbing
+    def _fresh_check(self):
+        """Decide the current assertion stack with a fresh, non-incremental solver (z3's
+        incremental core is much weaker on XOR-heavy / wide bit-vector queries)."""
+        s2 = z3.Solver()
+        s2.set("timeout", int(self.opts.get("query_timeout_ms", 10000)))
+        s2.add(self.solver.assertions())
+        r = s2.check()
+        self._fresh_model = s2.model() if r == z3.sat else None
+        return r
+
     def _check(self, *extra) -> z3.CheckSatResult:
         t0 = time.perf_counter()
-        r = self.solver.check(*extra)
+        self._fresh_model = None
+        if self.opts.get("solver_mode") == "fresh" and not extra:
+            r = self._fresh_check()
+        else:
+            r = self.solver.check(*extra)
+            if r == z3.unknown and not extra:
+                r = self._fresh_check()
         dt = time.perf_counter() - t0
         st = self.stats
         st.queries += 1
@@ -121,7 +138,7 @@ class Ctx:
         if not self.model_valid:
             r = self._check()
             if r == z3.sat:
-                self.model = self.solver.model()
+                self.model = self._fresh_model if self._fresh_model is not None else self.solver.model()
                 self.model_valid = True
             elif r == z3.unsat:
                 raise PathAbort()
@@ -141,7 +158,7 @@ class Ctx:
             for c in conds:
                 self.solver.add(c)
             r = self._check()
-            m = self.solver.model() if r == z3.sat else None
+            m = (self._fresh_model if self._fresh_model is not None else self.solver.model()) if r == z3.sat else None
             return r, m
         finally:
             self.solver.pop()
@@ -244,6 +261,10 @@ class Ctx:
             self._ensure_model()
 
     # ------------------------------------------------------------------ property statements
+    def define(self, name: str, value):
+        """Name a derived value so that known-finding signatures can refer to it."""
+        self.defs[name] = value
+
     def reach(self, label: str):
         self.reached.add(label)
 
@@ -282,6 +303,7 @@ class Ctx:
             return z3.BoolVal(True) if self.mode == "sym" else True
         ns = {"And": api.And, "Or": api.Or, "Not": api.Not, "len": api.len_}
         ns.update(self.inputs)
+        ns.update(self.defs)
         ns["params"] = self.opts.get("params", {})
         try:
             v = eval(expr, ns)  # noqa: S307 - expressions come from the committed known_findings.json
